@@ -46,6 +46,12 @@ func bodyLen(r *core.Rand, big bool) int {
 // unread pipelined bytes in its socket makes the kernel send RST, which can destroy the tail of
 // the previous response - a transport artefact outside the property).
 func genX(r *core.Rand, pr Profile, sec bool, mayClose bool) string {
+	return genXm(r, pr, sec, mayClose, true)
+}
+
+// genXm: seqMode = the client sends one request at a time (dial-level faults are attributed to the
+// request being driven, which needs that).
+func genXm(r *core.Rand, pr Profile, sec bool, mayClose bool, seqMode bool) string {
 	m := "GET"
 	if pr.Rich || r.Chance(1, 3) {
 		m = methods[r.Intn(len(methods))]
@@ -142,6 +148,9 @@ func genX(r *core.Rand, pr Profile, sec bool, mayClose bool) string {
 	switch o {
 	case "fail":
 		fk := r.Pick("none", "head", "garbage")
+		if seqMode && !sec && r.Chance(1, 3) {
+			fk = r.Pick("refuse", "dtimeout")
+		}
 		kv = append(kv, "fk="+fk, fmt.Sprintf("k=%d", r.Range(1, 60)))
 		oc = false
 	case "trunc":
@@ -212,7 +221,7 @@ func GenCase(r *core.Rand, pr Profile) []string {
 		}
 		ops = append(ops, "conn mode="+mode+" listener="+listener+" shutdown=0"+rt)
 		for i := 0; i < n; i++ {
-			ops = append(ops, genX(r, pr, listener == "tls", (mode != "pipe" && mode != "half") || i == n-1))
+			ops = append(ops, genXm(r, pr, listener == "tls", (mode != "pipe" && mode != "half") || i == n-1, mode == "seq" || mode == "dribble"))
 		}
 		ops = append(ops, "end")
 		return ops
@@ -225,7 +234,7 @@ func GenCase(r *core.Rand, pr Profile) []string {
 			ops = append(ops, genX(r, pr, false, true))
 		}
 		rq, rs := genMods(r, pr)
-		ops = append(ops, fmt.Sprintf("cblind dial=%s rq=%s rs=%s", b01(r.Chance(2, 3)), rq, rs))
+		ops = append(ops, fmt.Sprintf("cblind dial=%s dk=%s rq=%s rs=%s", b01(r.Chance(1, 2)), r.Pick("refuse", "timeout", "eof"), rq, rs))
 		for i := 0; i < r.Intn(3); i++ {
 			ops = append(ops, genX(r, pr, false, true))
 		}
